@@ -12,6 +12,9 @@ func TestProp_Hard(t *testing.T) { PartHard.Run(t) }
 func TestProp_Nano(t *testing.T) { PartNano.Run(t) }
 func TestProp_Mono(t *testing.T) { PartMono.Run(t) }
 
+// TestProp_SharedPlain: the concurrent part judged by the oracle alone (plain binary).
+func TestProp_SharedPlain(t *testing.T) { PartSharedPlain.Run(t) }
+
 // TestEnum_HardEdges: the fixed boundary list (not a complete enumeration of anything).
 func TestEnum_HardEdges(t *testing.T) { PartHardEdges.RunCases(t, HardEdgeCases(), false) }
 
@@ -24,6 +27,7 @@ func TestReplay(t *testing.T) {
 	PartNano.Replay(t, 1)
 	PartMono.Replay(t, 5)
 	PartRace.Replay(t, 20)
+	PartSharedPlain.Replay(t, 20)
 }
 
 // TestSelf_IntervalOracle checks the concurrent oracle itself on hand-made
